@@ -7,6 +7,7 @@ import (
 	"math/rand"
 	"os"
 	"path/filepath"
+	"strings"
 	"time"
 
 	"github.com/benbjohnson/litestream"
@@ -312,6 +313,7 @@ func runC04(rc *Recorder, dir string, rng *rand.Rand, idx int) error {
 	}
 	ctx2, cancel2 := context.WithTimeout(ctxb, 60*time.Second)
 	defer cancel2()
+	defer func() { lastTrace = w.cfg.String() + " | " + strings.Join(w.trace, " ") }()
 	if err := w.ldb.Close(ctx2); err == nil && acked {
 		w.ackOracle(rc, "Close after "+sc.kind)
 	}
